@@ -1022,6 +1022,12 @@ class Interp(CallMixin):
             res = self.contains(b, a, node, frame)
             return res if isinstance(op, ast.In) else not res
         if isinstance(op, (ast.Lt, ast.LtE, ast.Gt, ast.GtE)):
+            names = {ast.Lt: ("__lt__", "__gt__"), ast.LtE: ("__le__", "__ge__"), ast.Gt: ("__gt__", "__lt__"), ast.GtE: ("__ge__", "__le__")}[type(op)]
+            for obj_, other_, dunder_ in ((a, b, names[0]), (b, a, names[1])):
+                if isinstance(obj_, (Obj, EnumVal)) and obj_.cls in self.model.classes:
+                    m_ = self.model.find_method(self.model.classes[obj_.cls], dunder_)
+                    if m_ is not None:
+                        return self.truth(self.call(FuncVal(fn=m_, self_obj=obj_, module=m_.module), [other_], {}, node, frame))
             if isinstance(a, (set, frozenset)) or isinstance(b, (set, frozenset)):
                 # subset / superset tests (the other side may be a dict's key view, modelled as a list)
                 sa = set(self.hashable(x, node, frame) for x in (a if isinstance(a, (set, frozenset, list, tuple)) else []))
